@@ -100,8 +100,16 @@ def fill_cases(ctx):
         kw = dict(g)
         ft = kw.pop("ft")
         img, info = fatspec.build(ft, **kw)
-        bpc = info["bpc"]
-        big = g["clusters"] > 1000
+        ops = fill_program(info["bpc"], g["clusters"])
+        meta = dict(source="build", ft=ft, **kw)
+        out.append(history.Case(f"fill{ft}-partial-last-cluster-{gi}", img, ops, mount=dict(encoding="ibm437", offset=(0, 1536, 4096, 512)[gi % 4]), meta=meta))
+    return out
+
+
+def fill_program(bpc, clusters):
+    if True:
+        big = clusters > 1000
+        g = dict(clusters=clusters)
         ops = [["makedir", "/f"]]
         n = 0
         per = (g["clusters"] // 12 + 1) if not big else g["clusters"] // 6
@@ -113,9 +121,7 @@ def fill_cases(ctx):
             n += 1
         ops += [["remove", "/f/BIG01.BIN"], ["open", f"h{n}", "/f/AGAIN.BIN", "w"], ["write", f"h{n}", "62" * ((per + 1) * bpc)], ["hclose", f"h{n}"],
                 ["open", f"h{n + 1}", "/f/AGAIN2.BIN", "w"], ["write", f"h{n + 1}", "63" * (per * bpc)], ["hclose", f"h{n + 1}"], ["listdir", "/f"], ["closefs"]]
-        meta = dict(source="build", ft=ft, **kw)
-        out.append(history.Case(f"fill{ft}-partial-last-cluster-{gi}", img, ops, mount=dict(encoding="ibm437", offset=(0, 1536, 4096, 512)[gi % 4]), meta=meta))
-    return out
+        return ops
 
 
 def run_histories(ctx, oracles, nprog, nops, kind="namespace", vol_filter=None, mounts=None, remount_every=False,
